@@ -346,6 +346,7 @@ impl<T: Elem> Hist<T> {
         // Tags.
         let mut tags: Vec<Tag> = Vec::new();
         let mut mtags: Vec<Vec<MTag>> = vec![Vec::new(); n];
+        let mut list: Vec<(usize, String, TagValue)> = Vec::new();
         if n > 0 {
             let ntagged = if cfg.tags_mode {
                 match rng.below(5) {
@@ -378,16 +379,37 @@ impl<T: Elem> Hist<T> {
                     self.next_id += 1;
                     let val = mk_tagval(rng, id);
                     let key = format!("k{id}");
-                    tags.push(Tag::new(pos, key.clone(), val.clone()));
-                    mtags[pos].push(MTag { key, val });
+                    list.push((pos, key, val));
                     if wpos + pos == self.cap - 1 || wpos + pos == self.cap {
                         rep.count("tags_adjacent_to_wrap", 1);
                     }
                 }
-                rep.max("tags_per_sample", mtags[pos].len() as u64);
+            }
+            if cfg.tags_mode && rng.chance(1, 3) {
+                // Tags of samples that are not part of this commit (blocks pass the
+                // tags of their whole window while committing part of it): they
+                // must never be delivered. The writer's list has no required order.
+                for _ in 0..rng.range(1, 3) {
+                    let id = self.next_id;
+                    self.next_id += 1;
+                    let pos = n + rng.below(filled - n + 3);
+                    list.push((pos, format!("beyond{id}"), mk_tagval(rng, id)));
+                    rep.count("tags_beyond_the_commit_passed", 1);
+                }
+            }
+            if cfg.tags_mode && rng.chance(1, 2) {
+                rng.shuffle(&mut list);
+                rep.count("commits_with_shuffled_tag_list", 1);
+            }
+            for (pos, key, val) in list {
+                tags.push(Tag::new(pos, key.clone(), val.clone()));
+                if pos < n {
+                    mtags[pos].push(MTag { key, val });
+                    rep.max("tags_per_sample", mtags[pos].len() as u64);
+                }
             }
         }
-        rep.count("tags_committed", tags.len() as u64);
+        rep.count("tags_committed", tags.iter().filter(|t| t.pos() < n).count() as u64);
         let wpos = self.wpos();
         let crossed = n > 0 && wpos + n > self.cap;
         if crossed {
@@ -818,7 +840,11 @@ pub fn main(opts: &Opts, tags_mode: bool) -> Report {
     }
 
     let mut rng = Rng::new(opts.shard_seed() ^ if tags_mode { 0xC02 } else { 0xC01 });
-    let total_ops = opts.budget(8_000_000, 400_000_000) as usize;
+    let mut total_ops = opts.budget(8_000_000, 400_000_000) as usize;
+    if opts.val("variant").as_deref() == Some("asan") {
+        // the sanitizer build is ~5x slower: a tenth of the histories
+        total_ops /= 10;
+    }
     let sizes = [PAGE, PAGE, 2 * PAGE, 3 * PAGE, 8 * PAGE];
     let mut ops_done = 0usize;
     let mut case_no = 0u64;
